@@ -692,6 +692,8 @@ def body(chk, db, cfgname):
     with r5.guard(G2 + "::operator()(long,long,long)", f.loc(), cfgname):
         ctx = Ctx(f, db)
         rets = [j for j, n in f.walk(f.body) if n["k"] == "return"]
+        if len(rets) != 1:
+            raise AnalysisBroken("TwoParticleGF::operator()(long,long,long): expected one return (several returns are not analysed)")
         k = ctx.key(f.nodes[rets[0]]["sub"])
         F = Formula()
         ms = F.name_atom(fld("Pomerol::Thermal::MatsubaraSpacing"), "dW")
